@@ -466,18 +466,22 @@ pub fn run(ctx: &RunCtx) -> i32 {
         exhaustive: false,
     };
     let secrets = secrets(ctx.seed);
-    let n_uploads = ctx.tier.sz(160, 16_000);
+    let n_uploads = ctx.tier.sz(1000, 100_000);
     let per = 4u64;
     let total = par_run(ctx.workers, n_uploads.div_ceil(per), |j, r| {
         let rt = new_runtime();
         let mut g = Rng::new(derive_seed(ctx.seed, "C08", j));
         for i in 0..per {
-            let small = i % 2 == 0;
+            // (interpreter legs: small uploads only - every chunk costs a SHA-256 chain)
+            let small = i % 2 == 0 || scale_div() >= 1000;
             let u = gen_upload(&mut g, &secrets, small);
             let other = gen_upload(&mut g, &secrets, small);
             let every = u.req.body.len() <= 2048;
             r.count(if every { "uploads_truncated_at_every_offset" } else { "uploads_truncated_at_token_boundaries" }, 1);
             for (fault, pos, req) in faults(&mut g, &u, &other, every) {
+                if sample_skip() {
+                    continue;
+                }
                 let (framing, fclass) = framing_for(&mut g, &req.body, &u.metas);
                 let mut req = req;
                 req.framing = framing;
